@@ -518,8 +518,7 @@ class XsdAnyElement(XsdWildcard, ParticleMixin,
         return iter(())
 
     def _has_occurs_restriction(self, other: XsdWildcard) -> bool:
-        return self.max_occurs == 0 or isinstance(other, XsdAnyElement) and \
-            self.has_occurs_restriction(other)
+        return isinstance(other, XsdAnyElement) and self.has_occurs_restriction(other)
 
     def iter(self, tag: Optional[str] = None) -> Iterator[Any]:
         return iter(())
